@@ -173,7 +173,8 @@ def do_cli(req, repo, io_dir, counter):
 def _msg_record(m):
     loc = m.location
     return {
-        "file": m.source_file,
+        # a message whose file is not even a string names no known file (C16)
+        "file": m.source_file if isinstance(m.source_file, str) else f"<{type(m.source_file).__name__} object, not a file name>",
         "line": loc.start.line,
         "col": loc.start.column,
         "eline": loc.end.line,
@@ -334,6 +335,10 @@ def worker_loop(conn, repo, io_dir):
                 resp = {"harness_error": f"unknown op {op}"}
         except BaseException:  # pylint:disable=broad-except
             resp = {"harness_error": traceback.format_exc()}
+        try:
+            data = json.dumps(resp)
+        except (TypeError, ValueError):
+            resp = {"harness_error": "response not serialisable: " + traceback.format_exc()}
         send_msg(conn, resp)
     os._exit(0)
 
